@@ -149,14 +149,17 @@ def keepLoop : Nat → Q → Addr → Q × Addr
       let (q, f) := poolGet q
       keepLoop n { q with next := upd q.next last (some f) } f
 
+/-- `last := q.nodePoolFirst; if last == nil { last = Get(); q.nodePoolFirst = last }` -/
+def keepStart (q : Q) : Q × Addr :=
+  match q.poolFirst with
+  | some l => (q, l)
+  | none => let r := poolGet q; ({ r.1 with poolFirst := some r.2 }, r.2)
+
 def keepNodePoolCount (q : Q) (n : Int) : Option Q :=
   if n ≤ 0 then clearNodePool q else
-  let q := { q with nodeCount := n }
-  let (q, last) := match q.poolFirst with
-    | some l => (q, l)
-    | none => let (q, f) := poolGet q; ({ q with poolFirst := some f }, f)
-  let (q, last) := keepLoop (n - 1).toNat q last
-  (putAllIntoPool (q.fresh + 1) q (q.next last)).map fun q => { q with next := upd q.next last none }
+  let s := keepStart { q with nodeCount := n }
+  let r := keepLoop (n - 1).toNat s.1 s.2
+  (putAllIntoPool (r.1.fresh + 1) r.1 (r.1.next r.2)).map fun q => { q with next := upd q.next r.2 none }
 
 /-- `VerifNodeCount`: length of the free list by walking it (`none` = the walk does not end) -/
 def walkLen : Nat → (Addr → Option Addr) → Option Addr → Option Nat
